@@ -17,8 +17,8 @@ FLOOR = 1e-6          # errors below this fraction of the peak are rounding nois
 
 
 # ------------------------------------------------------------------ profiles: r, dr → (f, P) closed form
-def fam_gauss(n, dr):
-    r = np.arange(n) * dr
+def fam_gauss(n, dr, off=0.0):
+    r = (np.arange(n) + off) * dr
     R = (n - 1) * dr
     s1, s2 = R / 3.5, R / 4          # ≥ 6 px already at n = 25, < 1e-5 of the peak at the edge; same physical distribution at every n
     f = np.exp(-r ** 2 / s1 ** 2) + 0.5 * np.exp(-r ** 2 / s2 ** 2)
@@ -26,16 +26,16 @@ def fam_gauss(n, dr):
     return f, P
 
 
-def fam_bump(n, dr, p=3):
-    r = np.arange(n) * dr
+def fam_bump(n, dr, off=0.0, p=3):
+    r = (np.arange(n) + off) * dr
     R = 0.8 * (n - 1) * dr
     u = np.clip(1 - r ** 2 / R ** 2, 0, None)
     return u ** p, R * Beta(0.5, p + 1) * u ** (p + 0.5)
 
 
-def fam_ring(n, dr):
+def fam_ring(n, dr, off=0.0):
     """Gaussian ring; projection by Gauss–Legendre line-of-sight quadrature (independent of PyAbel)"""
-    r = np.arange(n) * dr
+    r = (np.arange(n) + off) * dr
     R = (n - 1) * dr
     r0, w = 0.4 * R, R / 6
     f = np.exp(-(r - r0) ** 2 / w ** 2)
@@ -92,6 +92,10 @@ def half_cases():
     def direct_rgrid(x, dr=1.0, **k):                      # explicit r grid instead of dr
         return abel.direct.direct_transform(x, backend="python", r=np.arange(x.shape[-1]) * dr, **k)
     add("direct/rgrid", direct_rgrid, dict(correction=True), True)
+
+    def direct_halfgrid(x, dr=1.0, **k):                   # explicit uniform r grid that does not start at 0 (pixel centres)
+        return abel.direct.direct_transform(x, backend="python", r=(np.arange(x.shape[-1]) + 0.5) * dr, **k)
+    add("direct/halfgrid", direct_halfgrid, dict(correction=True), True)
     add("onion_bordas/shift", abel.onion_bordas.onion_bordas_transform, dict(shift_grid=True), False)
     add("onion_bordas/noshift", abel.onion_bordas.onion_bordas_transform, dict(shift_grid=False), False)
     add("onion_peeling", abel.dasch.onion_peeling_transform, dict(basis_dir=None), False)
@@ -112,7 +116,7 @@ def measure(sizes, dr_values=(1.0,), with_images=True, nonneg_max_n=60, only=Non
                 if "nonneg" in name and n > nonneg_max_n:
                     continue
                 for dr in dr_values:
-                    src, proj = mk(n, dr)
+                    src, proj = mk(n, dr, 0.5 if name.endswith("/halfgrid") else 0.0)
                     sl = region(n)
                     amp = np.array([1.0, 0.5, 2.0])[:, None]        # several rows, each its own amplitude
                     rows = amp * proj[None, :]
@@ -385,7 +389,7 @@ def random_cases(rng, count):
 
 def measure_random(rng, count, direction, nonneg_max_n=60):
     out = []
-    cases = half_cases()
+    cases = [c for c in half_cases() if not c[0].endswith("/halfgrid")]       # (the random profiles are sampled on grids starting at 0)
     for kind, n, dr, par, src, proj in random_cases(rng, count):
         name, f, opts, fwd = cases[int(rng.integers(0, len(cases)))]
         if direction == "forward" and not fwd:
